@@ -2,6 +2,7 @@ import ShexerModel.Model.Emit
 import ShexerModel.Model.Ctor
 import ShexerModel.Model.Shacl
 import ShexerModel.Model.Targets
+import ShexerModel.Model.Text
 import ShexerModel.Spec.Counts
 import ShexerModel.Spec.ShExSem
 open Shexer
@@ -35,6 +36,8 @@ structure DState where
   prefixes : Array (String × String) := #[]
   /-- (raw selector, raw label, explicit rows for selectors the model cannot evaluate) -/
   smItems : Array (String × String × Option (List String)) := #[]
+  /-- the user's namespaces dictionary (namespace, prefix) in dictionary order -/
+  nsDict : Array (String × String) := #[]
 
 def parseBool (s : String) : Bool := s == "1" || s == "true" || s == "True"
 
@@ -115,6 +118,17 @@ def runCase (st : DState) (what id : String) : List String :=
       let sel : Tracker.InstDict := st.selLines.toList
       let labels := (st.smItems.toList.filterMap fun (_, rl, _) => Targets.parseLabel st.prefixes.toList rl)
       Emit.render (Shexer.runSel { st.cfg with protectedLabels := labels } sel g)
+    | "text" =>
+      match Text.withShapesNs st.nsDict.toList st.cfg.shapesNs with
+      | none => ["RANDOM-PREFIX"]
+      | some ns =>
+        (Text.prefixLines ns).map (fun l => "P\t" ++ l) ++
+        (Shexer.run st.cfg g).flatMap fun sh =>
+          ("L\t" ++ (Text.tuneToken ns sh.name).render.drop 1) ::      -- the label is the reference token without '@'
+          sh.stmts.map fun s =>
+            "S\t" ++ (Text.tuneToken ns s.prop).render ++ "\t" ++
+              "|".intercalate (s.types.map fun ty =>
+                if s.prop == st.cfg.instProp then "[" ++ (Text.tuneToken ns ty).render ++ "]" else (Text.tuneToken ns ty).render)
     | "fixedlines" =>
       st.smItems.toList.map fun (rs, _, _) =>
         match Targets.splitFixedLine rs with
@@ -215,6 +229,7 @@ def stepLine (st : DState) (line : String) : DState × List String :=
     let t : Triple := { s := mkTerm sk s, p := p, o := mkTerm ok o }
     ({ st with triples := st.triples.push t, selTriples := st.selTriples.push t }, [])
   | ["TX", sk, s, p, ok, o] => ({ st with triples := st.triples.push { s := mkTerm sk s, p := p, o := mkTerm ok o } }, [])
+  | ["NS", n, p] => ({ st with nsDict := st.nsDict.push (n, p) }, [])
   | ["PX", p, ns] => ({ st with prefixes := st.prefixes.push (p, ns) }, [])
   | ["SM", rs, rl] => ({ st with smItems := st.smItems.push (rs, rl, none) }, [])
   | ["SMR", rs, rl, rows] => ({ st with smItems := st.smItems.push (rs, rl, some (splitList rows)) }, [])
